@@ -77,7 +77,60 @@ READ_KINDS = ["read-eio", "read-truncated", "read-reset", "read-timeout",
               "read-memoryerror", "read-valueerror", "read-abort"]
 
 
+NEST_SCHEMA = """<schema>
+  <sectiontype name="st">
+    <multikey name="k" datatype="string"/>
+  </sectiontype>
+  <sectiontype name="zznest">
+    <key name="nk" datatype="zcsim.simdt.nested"/>
+  </sectiontype>
+  <sectiontype name="grp">
+    <multikey name="k" datatype="string"/>
+    <multisection type="zznest" name="*" attribute="n"/>
+  </sectiontype>
+  <multikey name="k" datatype="string"/>
+  <multisection type="st" name="*" attribute="s"/>
+  <multisection type="grp" name="*" attribute="g"/>
+  <multisection type="zznest" name="*" attribute="n"/>
+</schema>
+"""
+
+
+def generate_reentrant(rng):
+    """A load started on the SAME ConfigLoader while another one is between
+    two of its lines (a datatype of the application loads a second
+    configuration); the outer text then goes on with further %include
+    directives.  Every resource of both loads is closed when the outer call
+    ends, whichever line of whichever resource a failure occurs in."""
+    base = rng.choice(["file:///sim/re/", "http://sim.test/re/"])
+    t1, t3 = base + "t1.conf", base + "t3.conf"
+    f1, f2, f3, f4 = (base + "f1.conf", base + "sub/f2.conf",
+                      base + "f3.conf", base + "sub/f4.conf")
+    nest = "<zznest x>\nnk go\n</zznest>\n"
+    if rng.random() < 0.5:
+        nest = "<grp g>\nk g1\n" + nest + "k g2\n</grp>\n"
+    where = rng.choice(["top", "f1", "f2"])
+    store = {
+        f2: "k f2\n" + (nest if where == "f2" else ""),
+        f1: "k f1-a\n%include sub/f2.conf\n"
+            + (nest if where == "f1" else "") + "k f1-b\n",
+        f4: "k f4\n",
+        t1: "k t1\n%include f1.conf\n" + (nest if where == "top" else "")
+            + "%include sub/f4.conf\nk t1-end\n",
+        t3: "k t3\n%include f3.conf\nk t3-end\n",
+        f3: "k f3\n",
+    }
+    return {"prop": ID, "kind": "reentrant", "store": store, "top": t1,
+            "inner_top": t3, "rot": rng.randrange(1000),
+            # what the application's datatype does when the load it started
+            # fails: pass the error on, or carry on without the result
+            "inner_propagates": rng.random() < 0.5,
+            "packages": {}, "entry": "url"}
+
+
 def generate(rng, tier, index):
+    if rng.random() < 0.04:
+        return generate_reentrant(rng)
     if rng.random() < 0.45:
         sc = scenarios.schema_scenario(rng)
         sc.pop("ir", None)
@@ -85,6 +138,24 @@ def generate(rng, tier, index):
         sc = scenarios.config_scenario(rng, {"comp_src": 0.25})
     sc["prop"] = ID
     sc["rot"] = rng.randrange(1000)
+    if sc["kind"] == "schema" and rng.random() < 0.12:
+        # the top schema document declares an external general entity and
+        # refers to it (legal XML; whatever the reader makes of it, a stream
+        # opened for it is a stream opened during the load)
+        import re as _re
+        import urllib.parse as _up
+        top_ = sc["top"]
+        text_ = sc["store"].get(top_)
+        m_ = _re.search(r"<schema\b[^>]*>", text_ or "")
+        if m_ and "<!DOCTYPE" not in text_:
+            doctype = ('<!DOCTYPE schema [<!ENTITY zzent SYSTEM '
+                       '"zz-entity.xml">]>\n')
+            text_ = (text_[:m_.start()] + doctype + m_.group(0) + "&zzent;"
+                     + text_[m_.end():])
+            sc["store"][top_] = text_
+            sc["store"][_up.urljoin(top_, "zz-entity.xml")] = \
+                "<!-- the replacement text of the entity -->\n"
+            sc["external_entity"] = True
     # configuration scenarios: one ConfigLoader object serves the faulty load,
     # the rerun and a load of a wrapper that %include-s the top resource
     # (state a failed load leaves ON THE LOADER must not matter either)
@@ -212,6 +283,20 @@ class Ctx:
         if stdin_swap:
             import sys
             sys.stdin = stdin_swap[0]
+        problems = closure_problems(w, passed, top)
+        recon = {"n_open": w.n_open, "n_getdata": w.n_getdata,
+                 "n_import": w.n_import, "n_conv": w.n_conv,
+                 "n_sect": w.n_sect, "n_keytype": w.n_keytype,
+                 "calls": [ff.sim_calls if ff is not None else 0
+                           for (_r, ff, _u) in w.resources],
+                 "opened": list(w.opened), "fired": w.op_fired}
+        w.end_op("ok" if o["ok"] else o["cls"])
+        return o, problems, recon
+
+
+def closure_problems(w, passed=(), top=None):
+    """What is still open when a load has returned or raised."""
+    if True:
         problems = []
         for f in passed:
             # the top resource IS this stream: closing the Resource built
@@ -238,14 +323,7 @@ class Ctx:
         if rw:
             problems.append(("resource-warning", rw[0][:100]))
             del w.warnings[:]
-        recon = {"n_open": w.n_open, "n_getdata": w.n_getdata,
-                 "n_import": w.n_import, "n_conv": w.n_conv,
-                 "n_sect": w.n_sect, "n_keytype": w.n_keytype,
-                 "calls": [ff.sim_calls if ff is not None else 0
-                           for (_r, ff, _u) in w.resources],
-                 "opened": list(w.opened), "fired": w.op_fired}
-        w.end_op("ok" if o["ok"] else o["cls"])
-        return o, problems, recon
+        return problems
 
 
 def base_store(plan):
@@ -423,7 +501,120 @@ def same(a, b):
     return a["cls"] == b["cls"]
 
 
+def execute_reentrant(plan):
+    out = {"evaluations": 0, "digests": [], "fired": {}, "probes": {},
+           "violations": [], "waste": 0, "log": []}
+
+    def violation(clause, detail, pt):
+        focused = dict(plan)
+        focused["only"] = pt
+        out["violations"].append({
+            "sig": "C19|%s|reentrant" % clause,
+            "key": {"clause": clause, "scenario": "reentrant",
+                    "fault": (pt or {}).get("kind", "none")},
+            "detail": "%s; failure point %r; a load started on the busy "
+                      "ConfigLoader" % (detail, pt),
+            "plan": focused})
+
+    with SimWorld(store=plan["store"]) as w:
+        w.begin_op("setup-schema")
+        so = ops.schema_outcome(lambda: ops.load_schema_text(
+            NEST_SCHEMA, scenarios.SCHEMA_URL))
+        if not so["ok"]:
+            raise RuntimeError("C19 reentrant schema rejected: "
+                               + ops.brief(so))
+        schema = so["schema"]
+        ld = ZConfig.loader.ConfigLoader(schema)
+        inner = []
+
+        def hook(_value):
+            w.nested_hook = None
+            try:
+                o_ = ops.config_outcome(
+                    lambda: ld.loadURL(plan["inner_top"]))
+                inner.append(o_)
+            finally:
+                w.nested_hook = hook
+            if not o_["ok"] and plan.get("inner_propagates"):
+                raise RuntimeError("the configuration the datatype needs "
+                                   "could not be loaded")
+
+        def run(faults, name):
+            del inner[:]
+            w.store = dict(plan["store"])
+            w.nested_hook = hook
+            w.begin_op(name, faults)
+            o = ops.config_outcome(lambda: ld.loadURL(plan["top"]))
+            w.nested_hook = None
+            problems = closure_problems(w)
+            recon = {"n_open": w.n_open,
+                     "calls": [ff.sim_calls if ff is not None else 0
+                               for (_r, ff, _u) in w.resources],
+                     "fired": w.op_fired, "inner": list(inner)}
+            w.end_op("ok" if o["ok"] else o["cls"])
+            out["evaluations"] += 1 + len(inner)
+            return o, problems, recon
+
+        base, problems, recon = run([], "baseline")
+        if not base["ok"] or not recon["inner"] \
+                or not recon["inner"][0]["ok"]:
+            raise RuntimeError("C19 reentrant baseline: %s / inner %r"
+                               % (ops.brief(base), recon["inner"]))
+        for clause, detail in problems:
+            violation(clause, detail, None)
+        out["probes"]["load-started-on-the-busy-loader"] = 1
+        if plan.get("only") is not None:
+            pts = [plan["only"]]
+        else:
+            pts = []
+            for j in range(recon["n_open"]):
+                for k in (OPEN_KINDS[(plan["rot"] + j) % len(OPEN_KINDS)],
+                          READ_KINDS[(plan["rot"] + j) % len(READ_KINDS)]):
+                    if k == "read-truncated":
+                        k = "read-eio"
+                    pts.append({"seam": "open" if k in OPEN_KINDS
+                                else "read", "at": j, "kind": k})
+            for j, calls in enumerate(recon["calls"]):
+                for i in range(calls):
+                    pts.append({"seam": "line", "res": j, "at": i,
+                                "kind": "line-eio"})
+                    if (i + j + plan["rot"]) % 3 == 0:
+                        pts.append({"seam": "line", "res": j, "at": i,
+                                    "kind": "line-abort"})
+        for pt in pts:
+            if pt is None:
+                continue
+            t0 = len(w.trace)
+            o, problems, rec = run([pt], "faulty")
+            if rec["fired"] > 0:
+                out["fired"][pt["kind"]] = out["fired"].get(pt["kind"],
+                                                            0) + 1
+                import hashlib
+                import json
+                h = hashlib.sha256(json.dumps(
+                    [e[1:] for e in w.trace[t0:]], default=str).encode())
+                out["digests"].append(h.hexdigest()[:16])
+                if rec["inner"] and not rec["inner"][0]["ok"]:
+                    out["probes"]["fault-inside-the-inner-load"] = out[
+                        "probes"].get("fault-inside-the-inner-load", 0) + 1
+            for clause, detail in problems:
+                violation(clause, "%s (outer load ended with %s, inner "
+                          "loads: %s)" % (detail, ops.brief(o), [
+                              ops.brief(x) for x in rec["inner"]]), pt)
+            o2, problems2, rec2 = run([], "rerun")
+            if not same(o2, base):
+                violation("rerun-differs",
+                          "fault-free rerun through the same loader gives "
+                          "%s, baseline was %s" % (ops.brief(o2),
+                                                   ops.brief(base)), pt)
+            for clause, detail in problems2:
+                violation(clause, detail + " (in the rerun)", pt)
+    return out
+
+
 def execute(plan):
+    if plan.get("kind") == "reentrant":
+        return execute_reentrant(plan)
     out = {"evaluations": 0, "digests": [], "fired": {}, "probes": {},
            "violations": [], "waste": 0, "log": []}
     store0 = base_store(plan)
@@ -630,6 +821,8 @@ def execute(plan):
 
 
 def shrink(plan):
+    if plan.get("kind") == "reentrant":
+        return
     pt = plan.get("only")
     if pt is not None and plan.get("only2") is not None:
         new = dict(plan)
@@ -666,6 +859,11 @@ def shrink(plan):
 
 
 def sample(plan):
+    if plan["kind"] == "reentrant":
+        return {"kind": "reentrant", "top": plan["top"],
+                "inner_top": plan["inner_top"],
+                "resources": {u: t.splitlines()
+                              for u, t in plan["store"].items()}}
     if plan["kind"] == "config":
         return {"kind": "config", "entry": plan["entry"], "top": plan["top"],
                 "resources": {u: [ln["t"] for ln in ls]
